@@ -1694,6 +1694,15 @@ func (dryRunDriver) ExecContext(context.Context, string, ...any) (sql.Result, er
 	return nil, nil
 }
 
+// ScanStmts implements the migrate.StmtScanner interface. Files are
+// split into statements by the wrapped driver, as in a real run.
+func (d dryRunDriver) ScanStmts(input string) ([]*migrate.Stmt, error) {
+	if s, ok := d.Driver.(migrate.StmtScanner); ok {
+		return s.ScanStmts(input)
+	}
+	return migrate.Stmts(input)
+}
+
 // Lock implements the schema.Locker interface.
 func (dryRunDriver) Lock(context.Context, string, time.Duration) (schema.UnlockFunc, error) {
 	// We dry-run, we don't execute anything. Locking is not required.
